@@ -50,13 +50,13 @@ CLAIMED["C03"] = (
 
 CLAIMED["C05"] = (
     "KX: RunLength / IntegerPacking / Delta encoders and decoders of encoding.pyx lowered from source and executed over fully symbolic fixed-width elements (bit-vectors, every fused instantiation); compression driver, chains, masks, strings and files by solver-driven case split on boundary menus through the real build",
-    "Bounded model checking. For every fused integer instantiation (int8..uint32) and arrays of <= 3 (4) fully symbolic elements z3 shows decode(encode(x)) == x for run-length and delta encoding and, for |v| <= 3 (5) x max + 2, for integer packing into 1 and 2 bytes (or the encoder raised), with no out-of-bounds access. E-class: compress()/serialise/deserialise/read/write on all pairs (triples) of a 23-value integer boundary menu, a 15-value float menu x 3 tolerances x float32/64 x 3 container levels, non-finite/overflowing floats, strings with masks, 6 explicit chains; integer casts between every pair of the six integer types at the type limits (out-of-range values are refused, never wrapped).",
+    "Bounded model checking. For every fused integer instantiation (int8..uint32) and arrays of <= 3 (4) fully symbolic elements z3 shows decode(encode(x)) == x for run-length and delta encoding and, for |v| <= 3 (5) x max + 2, for integer packing into 1 and 2 bytes (or the encoder raised), with no out-of-bounds access. E-class: compress()/serialise/deserialise/read/write on all pairs (triples) of a 25-value integer boundary menu (each array also in its narrowest dtype), a 19-value float menu x 3 tolerances x float32/64 x 3 container levels, non-finite/overflowing floats in short and long float32/64 columns (every compress call bounded by an alarm: it must return), names beginning with underscores, masked columns read with placeholders without side effects, strings with masks, 6 explicit chains; integer casts between every pair of the six integer types at the type limits (out-of-range values are refused, never wrapped).",
     "Trusted: lowering + typed runtime + symnp shim (validated against the compiled module per run), z3, numpy/msgpack in the E-class part. Outside: floating-point fixed-point/interval-quantisation arithmetic on symbolic floats (menu values only), arrays longer than the bound, StringArrayEncoding internals symbolically. Known finding: FixedPointEncoding.encode wraps silently.",
     "DESIGN.md §4 C05")
 
 CLAIMED["C08"] = (
     "KX: the DP kernels of pairwise.pyx/tracetable.pyx lowered from source, if-converted into one formula per table and compared by z3 with the maximum over all enumerated alignments (symbolic codes, fully symbolic matrix and gap penalties); follow_trace executed with forking on the symbolic trace table; wrapper end-to-end by solver-driven case split against brute force",
-    "Bounded model checking of optimality. For every shape up to 3x2/2x3 (thorough 3x3), alphabet size 2 (3), linear and affine penalties, global / semi-global / local: the score computed by the real kernel text equals the maximum over ALL alignments of the documented model for EVERY int matrix with entries in +-2^20 and every non-positive gap penalty (open < extend included). Traceback: every alignment follow_trace emits from the symbolic trace table is valid, recomputes to that score, non-empty results are distinct and at most max_number. E-class: compiled align_optimal on all small inputs of a menu (asymmetric/zero/negative matrices, 7 gap settings, uint8/uint16 alphabets).",
+    "Bounded model checking of optimality. For every shape up to 3x2/2x3 (thorough 3x3), alphabet size 2 (3), linear and affine penalties, global / semi-global / local: the score computed by the real kernel text equals the maximum over ALL alignments of the documented model for EVERY int matrix with entries in +-2^20 and every non-positive gap penalty (open < extend included). Traceback: every alignment follow_trace emits from the symbolic trace table is valid, recomputes to that score, non-empty results are distinct and at most max_number. The affine sentinel formula is cut out of the live wrapper source. E-class: compiled align_optimal on all small inputs of a menu (asymmetric/zero/negative matrices in three memory layouts, 10 gap settings, uint8/uint16 alphabets) and on long thin tables (1x8 .. 6x2) with affine penalties.",
     "Trusted: lowering + if-conversion + typed runtime (validated per run: lowered kernels + transcribed initialisation give the compiled align_optimal's score on concrete vectors), the enumeration oracle, z3. The wrapper's table initialisation and trace post-processing are transcribed (stubs) in the KX part and exercised for real only in the E-class part (i.e. on the compiled binary). Outside: sequences longer than 3, |A| > 3, code widths 32/64, matrices beyond +-2^20.",
     "DESIGN.md §4 C08")
 
@@ -80,13 +80,13 @@ CLAIMED["C17"] = (
 
 CLAIMED["C11"] = (
     "bounded symbolic execution of the alignment text layer (cigar.py text codec over symbolic repeat counts and symbolic CIGAR text, Alignment.trace_from_strings/_gapped_str over symbolic gapped strings; real modules loaded through the SX rewrite, z3) plus solver-driven case split over traces on the real alignment / CIGAR / FASTA code and the compiled align_multiple",
-    "Bounded model checking. Class S (SX engine): _cigar_from_op_tuples -> _op_tuples_from_cigar with symbolic counts 0..9999 (decimal rendering/parsing of symbolic integers) and every operation code; _op_tuples_from_cigar on every well-formed text of length <= 3 (4) over symbolic characters; trace_from_strings on EVERY gapped string set of 2x3..4(5) and 3x3(4) symbolic characters and _gapped_str as its inverse. Class E: every trace of up to 4 (5) columns over 2 sequences and 3 (4) over 3 sequences through gapped strings, code/symbol matrices, slicing, gap removal, terminal-gap detection, identity and score helpers; every pairwise trace x clipping x offset x all 16 CIGAR writer option combinations through write/read; FASTA alignment round trip with several gap characters; align_multiple on all tuples of an 8-sequence menu.",
+    "Bounded model checking. Class S (SX engine): _cigar_from_op_tuples -> _op_tuples_from_cigar with symbolic counts 0..9999 (decimal rendering/parsing of symbolic integers) and every operation code; _op_tuples_from_cigar on every well-formed text of length <= 3 (4) over symbolic characters; trace_from_strings on EVERY gapped string set of 2x3..4(5) and 3x3(4) symbolic characters and _gapped_str as its inverse. Class E: every trace of up to 4 (5) columns over 2 sequences and 3 (4) over 3 sequences through gapped strings, code/symbol matrices, slicing, gap removal, terminal-gap detection, identity and score helpers; every pairwise trace x clipping x offset x all 16 CIGAR writer option combinations through write/read; rows over different alphabets; every identity mode of both identity functions on alignments and column slices; FASTA alignment round trip with several gap characters (tuple, list and string form) and explicit sequence types; align_multiple on all tuples of an 8-sequence menu.",
     "Trusted: numpy, the recomputation oracles in obligations/sx_c11.py, the list-backed numpy shim of the S obligations, z3. The numpy-vectorised parts (read_alignment_from_cigar / write_alignment_to_cigar proper, _aggregate_consecutive, _find_clipped_bases, the helper functions of alignment.py) and multiple.pyx are executed concretely per path (class E only). Malformed CIGAR text is outside the property. Outside: traces longer than 5 columns, multiple.pyx internals. Known finding: degenerate distance in align_multiple.",
     "DESIGN.md §4 C11")
 
 CLAIMED["C04"] = (
     "solver-driven case split over menu-built structures through the real convert.py / cif.py / bcif.py / compress.py (write -> text/binary/compressed -> read -> field-wise comparison); the model number of get_structure is a z3 variable explored over -5..5 and None against a row-filter model",
-    "Bounded model checking (thin S + E). Model/altloc selection: for files with 1..3 models every model number in -5..5 and None and every altloc policy returns exactly the matching rows, 0 and out-of-range numbers are rejected. Round trip: 2 residues x 3 atoms with residue types incl. hetero ligands with quote/prime atom names, 4 chain ids (multi-letter, prime), negative and large residue ids, insertion codes, optional fields incl. a free-text field with quotes/blanks, 8 intra- and 5 inter-residue bond types, link partners, 3 box kinds, 1-2 models; CIF, BinaryCIF and compressed BinaryCIF read back equal to the input and to each other, also through the dictionary-based struct_conn matcher. Both matcher implementations on every small table (unique match incl. row 0, no match, ambiguity). Six occupancy patterns (ties, all zero) for the occupancy altloc policy.",
+    "Bounded model checking (thin S + E). Model/altloc selection: for files with 1..3 models every model number in -5..5 and None and every altloc policy returns exactly the matching rows, 0 and out-of-range numbers are rejected. Round trip: 2 residues x 3 atoms (also two residues of one type differing by insertion code only; three residues with the bonded ones separated by another chain) with residue types incl. hetero ligands with quote/prime atom names, 4 chain ids (multi-letter, prime), negative and large residue ids (-300 .. 128), insertion codes, optional fields incl. a free-text field with quotes/blanks and non-canonical entity ids, 8 intra- and 5 inter-residue bond types, link partners, 3 box kinds, 1-2 models; CIF, BinaryCIF and compressed BinaryCIF read back equal to the input and to each other, also through the dictionary-based struct_conn matcher. Both matcher implementations on every small table (unique match incl. row 0, no match, ambiguity). Six occupancy patterns (ties, all zero) for the occupancy altloc policy.",
     "Trusted: numpy, the synthetic CCD fixture, z3 as case-split driver (the conversion layer is numpy-vectorised: apart from the model arithmetic everything is executed concretely per path, class E). Assumptions: adjacent canonical residues carry exactly the implicit peptide bond; inter-residue bond types limited to what struct_conn expresses. Outside: real CCD content, > 6 atoms, float coordinates beyond exactly representable menu values, assemblies.",
     "DESIGN.md §4 C04")
 
@@ -98,19 +98,19 @@ CLAIMED["C18"] = (
 
 CLAIMED["C19"] = (
     "bounded symbolic execution of upgma.pyx / nj.pyx over exact rationals (real-number semantics) and of the Newick writer/parser of tree.pyx over symbolic label strings, lowered from the .pyx source (z3), plus solver-driven case split over the compiled phylo extensions",
-    "Bounded model checking. Class S (KX engine, source level): UPGMA on EVERY symmetric matrix over n <= 4 (5) taxa with symbolic entries: each index one leaf, ultrametric, each node at half the average-linkage distance of its clusters over the original matrix, merged pair minimal; neighbour joining on EVERY additive matrix of all 4-leaf and four 5-leaf topologies with symbolic edge lengths (zero lengths = ties included): all leaf-to-leaf path lengths reproduced; TreeNode.to_newick -> from_newick with symbolic labels (every printable ASCII character the writer accepts, lengths 1..2 (3)) on 4 tree shapes with and without distances (this is where the solver found the recorded whitespace-label defect). Class E (compiled modules): 8 tree shapes x labelings through Newick/copy/as_binary/get_distance/LCA/==/hash; UPGMA and NJ on matrix menus.",
+    "Bounded model checking. Class S (KX engine, source level): UPGMA on EVERY symmetric matrix over n <= 4 (5) taxa with symbolic entries: each index one leaf, ultrametric, each node at half the average-linkage distance of its clusters over the original matrix, merged pair minimal; neighbour joining on EVERY additive matrix of all 4-leaf and four 5-leaf topologies with symbolic edge lengths (zero lengths = ties included): all leaf-to-leaf path lengths reproduced; TreeNode.to_newick -> from_newick with symbolic labels (every printable ASCII character the writer accepts, lengths 1..2 (3)) on 4 tree shapes with and without distances (this is where the solver found the recorded whitespace-label defect). Class E (compiled modules): 10 tree shapes x labelings through Newick (labels, digit-string labels, blanks, line breaks, tabs)/copy/as_binary/get_distance/LCA/==/hash; UPGMA and NJ on matrix menus (input matrices left unchanged), UPGMA on 300 / 600 taxa.",
     "Trusted: the plain node model standing for the compiled TreeNode/Tree in the S obligations, the rational abstraction (float32 rounding of upgma/nj is outside; the E obligations run the compiled code with a 1e-4 tolerance), the path-sum oracle, z3, the kx lowering (validated against the compiled functions on concrete matrices each run). tree.pyx distance/LCA/copy/as_binary code is checked as a compiled black box only. Outside: n > 5, label lengths > 3, non-ASCII labels, Newick strings not produced by the writer.",
     "DESIGN.md §4 C19")
 
 CLAIMED["C10"] = (
     "bounded symbolic execution of the selector / mask / similarity kernels lowered from the .pyx source (z3, symbolic int64 sort keys, masks, score matrices) plus solver-driven case split over the compiled k-mer tables and selectors against set/loop definitions",
-    "Bounded model checking. Class S (KX engine, source level): selector.pyx:_minimize with both argcummin passes (2..4 (6) k-mers, every window, symbolic int64 keys: leftmost minimum per window, duplicates handling, memory safety); kmertable.pyx:_to_kmer_mask (symbolic masks, contiguous and spaced models, reads stay inside the buffer); kmersimilarity.pyx:similar_kmers (symbolic symmetric matrices -64..64, symbolic threshold: result == brute-force set, i.e. the pruning bound is admissible); kmeralphabet.pyx k-mer decomposition (shared with C03). Class E (compiled modules): every pair of reference sequences up to the stated length x masks x bucket counts through all six builders and pickling; every query up to the stated length against a menu of references (match / match_table / match_kmer_selection, masks); ScoreThresholdRule for every threshold over a matrix menu in both table kinds; the four selectors with four permutations on every sequence up to the stated length; codes >= 2^32 in the bucketed table.",
+    "Bounded model checking. Class S (KX engine, source level): selector.pyx:_minimize with both argcummin passes (2..4 (6) k-mers, every window, symbolic int64 keys: leftmost minimum per window, duplicates handling, memory safety); kmertable.pyx:_to_kmer_mask (symbolic masks, contiguous and spaced models, reads stay inside the buffer); kmersimilarity.pyx:similar_kmers (symbolic symmetric matrices -64..64, symbolic threshold: result == brute-force set, i.e. the pruning bound is admissible); kmeralphabet.pyx k-mer decomposition (shared with C03). Class E (compiled modules): every pair of reference sequences up to the stated length x masks x bucket counts through all six builders and pickling; every query up to the stated length against a menu of references (match / match_table / match_kmer_selection, masks); ScoreThresholdRule for every threshold over a matrix menu in both table kinds, also together with an ignore mask; spacing models as strings and as position lists in any order; the four selectors with four permutations on every sequence up to the stated length; codes >= 2^32 in the bucketed table.",
     "Trusted: the set/loop models in obligations/sx_c10.py, the kx lowering (validated against the compiled module on concrete vectors each run), z3. kmertable.pyx pointer-array code (_count_kmers/_add_kmers/_append_entries/_pickle_c_arrays, C++ with raw pointers) is NOT lowered: it is covered as a compiled black box only, so an edit there is seen only after the extension is rebuilt. Outside: sequences and windows longer than the bounds, alphabets > 4 symbols (except the 200-symbol large-code obligation), float rounding of the min-code threshold (codes whose float64 image equals the threshold), hash quality of bucket_number.",
     "DESIGN.md §4 C10")
 
 CLAIMED["C14"] = (
     "bounded symbolic execution of CellList.get_atoms / _get_cell_index / squared_distance lowered from celllist.pyx, once over exact rationals (real-number semantics, z3 integer arithmetic) and once over IEEE-754 binary32 terms (z3 QF_BVFP), plus solver-driven case split over the compiled CellList on dyadic coordinates against exact rational minimum-image distances",
-    "Bounded model checking. Class S (KX engine, source level): (1) real semantics: 2-3 atoms, one query, all coordinates and the radius symbolic multiples of 1/8 in 3-D, 5-7 constant cell sizes, scalar and per-query radius: atom listed <=> distance <= radius; (2) float32 semantics on one axis with arbitrary finite values |x| <= 1024: an atom passing the source's float32 distance test and strictly inside the radius in float64 is returned (this is where the solver found the recorded cell-border rounding defect); (3) cell index inside the allocated grid for arbitrary float32 min <= x <= max. Class E (compiled module): every configuration of 1..3 atoms over a position menu x cell sizes x 5 box kinds x selections, 18 queries x 7 radii through get_atoms (index / mask, single / batch / per-query radii), create_adjacency_matrix, get_atoms_in_cells; periodic images of box.py; radii far beyond the extent.",
+    "Bounded model checking. Class S (KX engine, source level): (1) real semantics: 2-3 atoms, one query, all coordinates and the radius symbolic multiples of 1/8 in 3-D, 5-7 constant cell sizes, scalar and per-query radius: atom listed <=> distance <= radius; (2) float32 semantics on one axis with arbitrary finite values |x| <= 1024: an atom passing the source's float32 distance test and strictly inside the radius in float64 is returned (this is where the solver found the recorded cell-border rounding defect); (3) cell index inside the allocated grid for arbitrary float32 min <= x <= max. Class E (compiled module): every configuration of 1..3 atoms over a position menu x cell sizes x 6 box kinds (incl. a rotated orthorhombic one) x selections, 18 queries x 7 radii through get_atoms (index / mask, single / batch / per-query radii, non-finite positions inside a batch), create_adjacency_matrix, get_atoms_in_cells; periodic images of box.py; radii far beyond the extent.",
     "Trusted: the contract that stands for the pointer-array scan (_find_adjacent_atoms: the cells within +-cell_radius of the query's cell are visited) - that C code itself is only exercised as a compiled black box; the exact-rational oracle in obligations/sx_c14.py; z3's floating-point theory; the kx lowering (validated against the compiled module on concrete vectors each run, including the rounding counterexample). Outside: more than 3 atoms per configuration, float32 rounding in 3-D (the float obligation is one axis), periodic boxes in the S-class part, pairs within 1e-4 of the radius in periodic boxes whose fractional transformation is inexact, |x| > 1024.",
     "DESIGN.md §4 C14")
 
